@@ -56,6 +56,11 @@ func ArgExtras() []ugo.Object {
 		p = append(p, ugo.String(s))
 	}
 	p = append(p, ugo.Bytes("{\"a\":1}"), ugo.Bytes(strings.Repeat("\x00", 33)))
+	// byte strings that END inside a multi-byte sequence (scanners that look ahead 1 or 2 bytes):
+	// U+2028 is E2 80 A8
+	for _, b := range []string{"\xe2", "\xe2\x80", "\"a\xe2\x80", "\"a\xe2", "\xf0\x9f", "\xf0\x9f\x98", "[1,\"\xe2\x80", "\"\\u20", "\"\\", "\"\xe2\x80\xa8\""} {
+		p = append(p, ugo.Bytes(b), ugo.String(b), &ugojson.RawMessage{Value: []byte(b)})
+	}
 	deep := ugo.Array{}
 	for i := 0; i < 6; i++ {
 		deep = ugo.Array{deep, ugo.Map{"k": deep}}
